@@ -52,6 +52,25 @@ Oracles
        VARPTR/PEEK/VARPTR$ of every scalar and of every element of the small arrays, disjointness, packing,
        record headers), and the generator appends DIM of a new array + unique values in all its elements,
        each followed by the same audit (op flag 'audit').
+  Console input (op 'input'): INPUT of 1..4 variables / LINE INPUT typed through the simulated input queue,
+       mostly into scalars and string-array elements that do not exist yet, mostly right after op 'squeeze'
+       has turned free memory into garbage down to what the typed strings need plus a few bytes, so that
+       creating the first variable or dimensioning the array collects while the typed values wait. Modelled
+       as a row of LETs of constants (values assigned from the left; Out of memory part-way -> prefix).
+       unspecified: PC-BASIC answers ?Redo from start when a typed string does not fit in string space
+       (the harness then sends Ctrl+Break and demands that nothing was assigned); with enough memory in the
+       reference a refused line is `input:valid-line-refused`.
+  Restart (op 'restart'): Session.suspend -> close -> Session.resume (basicdrv.suspend_resume); every value
+       must read back unchanged and the history goes on in the resumed session (same collection plan).
+       Count arguments of LEFT$/RIGHT$/MID$ are sometimes LEN(<string expression>): an allocating argument
+       behind a first argument that may be a temporary.
+  Failing LET into an undeclared array (generator kind 'faillet'): the target of LET is the array's first
+       use - it precedes the right-hand side in the statement and is looked up before the right-hand side
+       is evaluated in GW-BASIC and PC-BASIC - so when the right-hand side fails (not with Out of memory)
+       and the target's subscripts are within 0/1..10, the array must exist afterwards with the target's
+       number of dimensions (`autodim:*`, C12); a DIM or a reference with another number of subscripts
+       follows. Out-of-range target subscripts and arrays first mentioned inside a failing expression stay
+       with the engine's choice.
 A violation that leaves the reference model uncertain ends the run.
 """
 
@@ -59,22 +78,24 @@ import os
 import struct
 
 from .. import kernel as K
-from ..basicdrv import Driver, EngineCrash
+from ..basicdrv import Driver, EngineCrash, suspend_resume
 from .common import execute, b
 
 NAME = 'mem'
 PROPS = ('C10', 'C11', 'C12')
 RULE = ('one evaluation = one simulated direct-mode history (12-55 ops quick, 40-400 thorough) of '
         'assignments, string functions, MID$/LSET/RSET, SWAP, DIM/ERASE/OPTION BASE, FIELD, DEF FN calls, '
-        'ERASE/DIM lists and multi-statement lines that fail after part of their work, '
+        'ERASE/DIM lists and multi-statement lines that fail after part of their work, console INPUT/LINE INPUT '
+        'typed through the simulated input queue at squeezed free memory, suspend/resume restarts, '
         'CLEAR ,n,m and FRE under a per-run memory limit and a per-run forced-collection plan, with read-back '
         'of every variable after every op and VARPTR/PEEK sweeps; distinct = distinct (op kind, outcome, '
         'live-string bucket, model-free bucket, collections bucket, arrays bucket) tuples; non-trivial = at '
         'least one statement executed and all variables read back')
 REAL = ['pcbasic.basic (whole package)', 'pcbasic.basic.memory.{memory,scalars,arrays}',
         'pcbasic.basic.values.strings (string space, collector)', 'pcbasic.basic.machine (PEEK)',
-        'host tmpfs for the FIELD file']
-STUB = ['wall clock (simulated)', 'interface queues (simulated, recording)',
+        'pcbasic.basic.implementation (console INPUT / LINE INPUT)', 'Session.suspend/resume (pickled state file)',
+        'host tmpfs for the FIELD file and the state file']
+STUB = ['wall clock (simulated)', 'interface queues (simulated, recording; typed input arrives as stream signals)',
         'collector trigger: DataSegment.check_free wrapped to force collections at a case-recorded subset of calls']
 ASSUMPTIONS = [
     'record sizes follow the documented GW-BASIC layouts (name header 4+max(0,len-2) bytes; arrays +3+2*rank)',
@@ -830,6 +851,12 @@ class Planner(object):
     def p_fre(self, op, p):
         p.stmt = 'FRE("")' if op.get('s') else 'FRE(0)'
 
+    def p_squeeze(self, op, p):
+        p.stmt = ''
+
+    def p_restart(self, op, p):
+        p.stmt = ''
+
     def p_fill(self, op, p):
         if op['n'] not in self.m.ar:
             p.skip = 'no-array'
@@ -840,7 +867,7 @@ class Planner(object):
 # compound statements: several units of work in one direct line, where a later unit may fail after
 # earlier ones have done theirs (ERASE a,b,c / DIM a(..),b(..) / stmt:stmt:stmt)
 
-COMPOUND = ('merase', 'mdim', 'line')
+COMPOUND = ('merase', 'mdim', 'line', 'input')
 PARTKINDS = ('let', 'mid', 'lset', 'swap', 'dim', 'erase', 'merase', 'mdim')
 
 
@@ -851,7 +878,34 @@ def expand(part):
         return [{'op': 'erase', 'n': n} for n in part['n']], part.get('tail', '')
     if k == 'mdim':
         return [{'op': 'dim', 'n': n, 'd': d} for n, d in part['a']], part.get('tail', '')
+    if k == 'input':
+        # typed values are assigned from the left, like a row of LETs of constants
+        items = part['v'][:1] if part.get('line') else part['v']
+        return [{'op': 'let', 't': r, 'e': {'k': 'int' if isinstance(v, int) else 'lit', 'v': v}} for r, v in items], ''
     return [part], ''
+
+
+def typed_text(part):
+    """What the user types for an 'input' op (None: cannot be typed as one unambiguous line)."""
+    if part.get('line'):
+        r, v = part['v'][0]
+        if not isinstance(v, str) or not is_str(r['n']) or any(not 32 <= ord(ch) < 127 for ch in v):
+            return None
+        if v != v.rstrip():
+            # unspecified: blanks at the end of a typed line (the line is taken from the screen)
+            return None
+        return v
+    out = []
+    for r, v in part['v']:
+        if is_str(r['n']) != isinstance(v, str):
+            return None
+        if isinstance(v, int):
+            out.append(str(v))
+            continue
+        if not v or '"' in v or any(not 32 <= ord(ch) < 127 for ch in v):
+            return None
+        out.append('"%s"' % v if (',' in v or v != v.strip() or ':' in v) else v)
+    return ','.join(out)
 
 
 def part_text(part, plans):
@@ -860,6 +914,9 @@ def part_text(part, plans):
         return ('ERASE ' + ','.join(part['n'])).rstrip() + part.get('tail', '')
     if k == 'mdim':
         return ('DIM ' + ','.join('%s(%s)' % (n, ','.join(str(x) for x in d)) for n, d in part['a'])).rstrip() + part.get('tail', '')
+    if k == 'input':
+        items = part['v'][:1] if part.get('line') else part['v']
+        return ('LINE INPUT ' if part.get('line') else 'INPUT ') + ','.join(ref_txt(r) for r, _ in items)
     return plans[0].stmt
 
 
@@ -878,6 +935,7 @@ class Comp(object):
         self.states = []
         self.fail = None
         self.names = []      # every array named in the statement
+        self.typed = None    # 'input': the line the user types
 
 
 def plan_compound(m, op):
@@ -887,8 +945,13 @@ def plan_compound(m, op):
     parts = op.get('parts', []) if op['op'] == 'line' else [op]
     texts = []
     for part in parts:
-        if not isinstance(part, dict) or part.get('op') not in PARTKINDS:
+        if not isinstance(part, dict) or part.get('op') not in (PARTKINDS if op['op'] == 'line' else COMPOUND):
             continue
+        if part['op'] == 'input':
+            # unspecified: a list with a target that cannot be assigned (subscripts, Overflow -> Redo)
+            comp.typed = typed_text(part) if part.get('v') else None
+            if comp.typed is None or len(comp.typed) > 240:
+                continue
         units, tail = expand(part)
         if part['op'] in ('merase', 'mdim') and not units:
             tail = tail or ' '
@@ -904,6 +967,8 @@ def plan_compound(m, op):
             plans.append(pl)
             if pl.ctx.errs:
                 failed = pl
+                if part['op'] == 'input':
+                    usable = False
                 break
             pl.commit()
             states.append(m.snapshot())
@@ -1204,6 +1269,12 @@ class Exec(object):
         if kind in COMPOUND:
             self.do_compound(op)
             return
+        if kind == 'squeeze':
+            self.do_squeeze(op)
+            return
+        if kind == 'restart':
+            self.do_restart(op)
+            return
         plan = Planner(m).plan(op)
         if plan.skip:
             run.probe('skipped:%s:%s' % (kind, plan.skip))
@@ -1226,6 +1297,66 @@ class Exec(object):
         if self.stop:
             return
         self.peeks(plan, full=audit, deep=audit)
+
+    # -- memory pressure and restarts ---------------------------------------------
+
+    def do_squeeze(self, op):
+        """
+        Turn free memory into garbage until FRE(0) (no collection) is at most op['to'], by assigning
+        STRING$(k, "g") to the scalar op['t'] again and again: ordinary modelled assignments whose number
+        and sizes follow the FRE(0) the engine reports. The next allocation then has to collect.
+        """
+        m, run = self.m, self.run
+        name = op['t']
+        if not is_str(name):
+            run.probe('skipped:squeeze:type')
+            return
+        to = max(1, int(op['to']))
+        last = None
+        for step in range(48):
+            f = self.ev('FRE(0)')
+            if f is None:
+                self.had_error = True
+                break
+            f = int(f)
+            if f <= to:
+                run.probe('squeezed')
+                break
+            if f - to > (48 - step) * 255:
+                run.probe('skipped:squeeze:too-much-free')
+                break
+            let = {'op': 'let', 't': {'n': name, 'i': None}, 'e': {'k': 'string', 'n': min(255, f - to), 'c': 103}}
+            last = Planner(m).plan(let)
+            r = self.d.exec(b(last.stmt))
+            self.judge(let, last, r)
+            if self.stop or r.err is not None:
+                break
+        run.state(*(self._state + (last is not None,)))
+        if self.stop or last is None:
+            return
+        self.readback(last)
+
+    def do_restart(self, op):
+        """Suspend the session to a file, close it, resume from the file: nothing BASIC-visible changes."""
+        run = self.run
+        if self.cfg.get('field'):
+            # unspecified here: open files across a restart
+            run.probe('skipped:restart:file-open')
+            return
+        path = os.path.join(run.make_scratch(), 'mem-%d.state' % self.opno)
+        self.d = suspend_resume(self.d, path)
+        try:
+            self.d.s._impl.memory._verif_gc = self.gc
+        except AttributeError:
+            raise K.HarnessError('Session._impl.memory not found: seam S7 needs updating')
+        run.state(*(self._state + ('restarted',)))
+        run.probe('restarts')
+        plan = Plan('restart')
+        plan.stmt = '(suspend, close, resume)'
+        self.readback(plan, full=True)
+        if self.stop:
+            return
+        self.peeks(plan, full=bool(op.get('audit')))
 
     # -- statements that may fail after part of their work ----------------------
 
@@ -1281,7 +1412,33 @@ class Exec(object):
             return
         plan = Plan(kind)
         plan.stmt = comp.text
-        r = self.d.exec(b(comp.text))
+        if kind == 'input':
+            plan.stmt = '%s <- %s' % (comp.text, comp.typed)
+            # all typed values are in memory before the first one is assigned
+            need_all = sum(pl.need for pl in comp.plans) + 2 * len(comp.typed) + 48
+            for pl in comp.plans:
+                pl.need = need_all
+            w = self.run.w
+            w.push(K.sig_stream(comp.typed + u'\r'))
+            # the statement may ask again (?Redo from start) and wait for ever: Ctrl+Break ends that
+            base, sent, old_hook = w.poll_no, [], w.poll_hook
+
+            def hook(world):
+                if not sent and world.poll_no - base > 40 and not world.inputs.pending:
+                    sent.append(1)
+                    world.inputs.pending.append(K.sig_break())
+            w.poll_hook = hook
+            try:
+                r = self.d.exec(b(comp.text))
+            finally:
+                w.poll_hook = old_hook
+            if w.inputs.pending:
+                raise K.HarnessError('typed input was not consumed by %r' % (comp.text,))
+            if sent or b'Redo from start' in r.out:
+                self.input_redo(comp, plan, r, need_all)
+                return
+        else:
+            r = self.d.exec(b(comp.text))
         err = r.err
         done = len(comp.states) - 1
         fail = comp.fail
@@ -1300,7 +1457,7 @@ class Exec(object):
             run.probe('stmt-ok')
         else:
             self.had_error = True
-            if len(r.errs) > 1 or r.text.strip():
+            if len(r.errs) > 1 or (r.text.strip() and kind != 'input'):
                 self.violate(self.prop, 'output-from-silent-statement:%s' % kind, '%r -> %r' % (comp.text, r))
             if err in (7, 14):
                 cands = []
@@ -1363,7 +1520,7 @@ class Exec(object):
             if done:
                 run.probe('partial-effect:%s' % kind)
         for i, pl in enumerate(comp.plans[:done + 1]):
-            self.resync(pl, failed=(i == done))
+            self.resync(pl, failed=(i == done), err=err)
             if i < done:
                 plan.touched.extend(pl.touched)
         if self.stop:
@@ -1373,6 +1530,27 @@ class Exec(object):
         if self.stop:
             return
         self.peeks(plan, full=audit, deep=audit)
+
+    def input_redo(self, comp, plan, r, need):
+        """
+        INPUT did not take a well-formed line. unspecified: how INPUT reports that the typed strings do not
+        fit in memory (PC-BASIC asks again, the Break the harness sends ends the statement); nothing has
+        been assigned then. With enough memory for the values it is a refusal of valid input.
+        """
+        m, run = self.m, self.run
+        self.had_error = True
+        run.state(*(self._state + ('redo',)))
+        m.restore(comp.states[0])
+        if not self.oom_is_legit(need):
+            self.violate(self.prop, 'input:valid-line-refused', '%s -> %r although the model has at least %d bytes free '
+                         'after collection and the values need at most %d; %s' % (
+                             plan.stmt, r, m.free_bounds()[0], need, self.history()))
+            self.stop = True
+            return
+        run.probe('input-redo-out-of-memory')
+        for pl in comp.plans[:1]:
+            self.resync(pl, failed=True)
+        self.readback(plan, full=True)
 
     def judge(self, op, plan, r):
         m, run = self.m, self.run
@@ -1410,7 +1588,7 @@ class Exec(object):
             self.violate(self.prop, 'output-from-silent-statement:%s' % kind, '%r -> %r' % (plan.stmt, r))
         if err in c.errs or err in c.opt:
             run.probe('stmt-error-as-modelled')
-            self.resync(plan, failed=True)
+            self.resync(plan, failed=True, err=err)
             return
         if err in (7, 14):
             if self.oom_is_legit(plan.need):
@@ -1454,7 +1632,7 @@ class Exec(object):
         except (IndexError, TypeError):
             return None
 
-    def resync(self, plan, failed):
+    def resync(self, plan, failed, err=None):
         """
         Existence of variables the statement may or may not have allocated (the property is silent on
         allocation by reference / before a failing evaluation): follow what BASIC shows.
@@ -1470,6 +1648,25 @@ class Exec(object):
                 if name in m.ar:
                     continue
                 lst = self.d.get(b(name + '('))
+                t = plan.target
+                if (plan.kind == 'let' and err is not None and err not in (7, 14) and t is not None and t['i'] is not None
+                        and t['n'] == name and all(m.base <= x <= 10 for x in t['i'])):
+                    # the target of LET is the first use of the array: it comes before the right-hand side
+                    # in the statement and is looked up before the right-hand side is evaluated (GW-BASIC
+                    # and PC-BASIC), so the array is there, with the target's number of dimensions,
+                    # although the right-hand side failed
+                    if not lst:
+                        self.violate('C12', 'autodim:target-of-failed-let-not-dimensioned',
+                                     '%r -> error %d; %s was not dimensioned before and is still not there; %s' % (
+                                         plan.stmt, err, name, self.history()))
+                        self.stop = True
+                        return
+                    if len(shape(lst)) != len(t['i']):
+                        self.violate('C12', 'autodim:shape-not-from-first-use',
+                                     '%r -> error %d; %s has shape %r, the target (its first use) has %d subscripts; %s' % (
+                                         plan.stmt, err, name, shape(lst), len(t['i']), self.history()))
+                        self.stop = True
+                        return
                 if lst:
                     sh = shape(lst)
                     if sh != [11 - m.base] * len(sh):
@@ -1749,6 +1946,8 @@ class Exec(object):
 
     def peeks(self, plan, full=False, deep=False):
         m = self.m
+        # the element-by-element audit is C11's business; the other properties keep the ordinary sweep
+        deep = deep and self.prop == 'C11'
         refs = []
         if plan is not None:
             for r in plan.touched:
@@ -2018,7 +2217,7 @@ def run(case):
                 run.probe('check_free-calls', gcplan['calls'])
                 if cfg['max_memory'] < 65534:
                     run.fault('mem-pressure')
-                d.close()
+                x.d.close()
             except EngineCrash as e:
                 # a crash inside the collector / string space is how C10 fails, whatever the run emphasised
                 props = {run.prop}
@@ -2170,11 +2369,17 @@ class Gen(object):
         if r < 0.62:
             return {'k': 'cat', 'a': self.sexpr(m, depth + 1, oob_p), 'b': self.sexpr(m, depth + 1, oob_p)}
         if r < 0.70:
-            return {'k': rng.choice(['left', 'right']), 's': self.sexpr(m, depth + 1, oob_p), 'n': self.count(10)}
+            e = {'k': rng.choice(['left', 'right']), 's': self.sexpr(m, depth + 1, oob_p), 'n': self.count(10)}
+            if rng.random() < 0.2:
+                # an argument that allocates behind a first argument that may be a temporary
+                e['n'] = {'k': 'len', 's': self.sexpr(m, depth + 2, oob_p)}
+            return e
         if r < 0.76:
             e = {'k': 'mid', 's': self.sexpr(m, depth + 1, oob_p), 'p': max(-1, self.count(10)), 'n': None}
             if rng.random() < 0.6:
                 e['n'] = self.count(10)
+                if rng.random() < 0.25:
+                    e['n'] = {'k': 'len', 's': self.sexpr(m, depth + 2, oob_p)}
             if rng.random() < 0.85 and e['p'] < 1:
                 e['p'] = 1
             return e
@@ -2288,13 +2493,13 @@ class Gen(object):
         weights = {
             'C10': [('lets', 40), ('letn', 6), ('mid', 8), ('lset', 6), ('swap', 6), ('probe', 7), ('dim', 4),
                     ('erase', 3), ('fre', 9), ('clear', 2), ('field', 4), ('fill', 1), ('optbase', 0.5),
-                    ('line', 3), ('merase', 1), ('mdim', 1)],
+                    ('line', 3), ('merase', 1), ('mdim', 1), ('input', 5), ('restart', 1.2), ('faillet', 0.5)],
             'C11': [('lets', 20), ('letn', 20), ('mid', 4), ('lset', 4), ('swap', 10), ('probe', 2), ('dim', 10),
                     ('erase', 8), ('fre', 3), ('clear', 2), ('field', 4), ('fill', 3), ('optbase', 0.5),
-                    ('line', 5), ('merase', 6), ('mdim', 4)],
+                    ('line', 5), ('merase', 6), ('mdim', 4), ('input', 2), ('restart', 0.5), ('faillet', 1)],
             'C12': [('lets', 6), ('letn', 6), ('elem', 30), ('swap', 5), ('dim', 16), ('erase', 9), ('fre', 2),
                     ('clear', 3), ('fill', 12), ('optbase', 4), ('probe', 1), ('mid', 1), ('lset', 1), ('field', 1),
-                    ('line', 2), ('merase', 4), ('mdim', 5)],
+                    ('line', 2), ('merase', 4), ('mdim', 5), ('input', 1.5), ('restart', 0.3), ('faillet', 6)],
         }[prop]
         kinds = [k for k, _ in weights]
         wts = [x for _, x in weights]
@@ -2302,6 +2507,22 @@ class Gen(object):
         ops = []
         for _ in range(n_ops):
             kind = rng.choices(kinds, wts)[0]
+            if kind in ('input', 'faillet', 'restart'):
+                for op2 in (self.gen_input(m) if kind == 'input' else self.gen_faillet(m) if kind == 'faillet'
+                            else self.gen_restart(m)):
+                    ops.append(op2)
+                    if op2['op'] in COMPOUND:
+                        plan_compound(m, op2)
+                    elif op2['op'] not in ('squeeze', 'restart'):
+                        p = pl.plan(op2)
+                        if p.skip or p.commit is None:
+                            continue
+                        if not p.ctx.errs:
+                            p.commit()
+                        elif p.target is not None and p.target['i'] is not None and 5 not in p.ctx.errs:
+                            # the target of a failing LET has been dimensioned
+                            m.apply_auto(p.ctx)
+                continue
             op = self.make_op(kind, m, floor)
             if op is None:
                 continue
@@ -2309,7 +2530,7 @@ class Gen(object):
             # follow the reference model assuming the statement does not run out of memory
             if op['op'] in COMPOUND:
                 comp = plan_compound(m, op)
-                if comp.fail is not None and len(comp.states) > 1 and rng.random() < 0.8:
+                if comp.fail is not None and len(comp.states) > 1 and rng.random() < (0.8 if prop == 'C11' else 0.4):
                     # part of the work was done: a new array must find room of its own afterwards
                     for op2 in self.follow_up(m):
                         ops.append(op2)
@@ -2340,6 +2561,126 @@ class Gen(object):
         out = [{'op': 'dim', 'n': name, 'd': self.small_dims(name), 'audit': True}]
         if rng.random() < 0.7:
             out.append({'op': 'fill', 'n': name, 'salt': rng.randint(1, 20000), 'audit': True})
+        return out
+
+    SAFE = 'ABCDEFGHIJKLMNOPQRSTUVWXYZabcdefghijklmnopqrstuvwxyz0123456789 .;!#$%&()*+-/<=>?@^_'
+
+    def typed_value(self, line=False):
+        rng = self.rng
+        n = rng.choice([1, 2, 3, 5, 8, 8, 13, 30, 60, 120, 200])
+        chars = self.SAFE + (',:"\'' if line else ',')
+        v = ''.join(rng.choice(chars) for _ in range(n))
+        if not line and rng.random() < 0.8:
+            v = v.replace(',', 'c')
+        if line:
+            v = v.rstrip() or 'x'
+        return v
+
+    def gen_input(self, m):
+        """Console INPUT / LINE INPUT, mostly into variables and arrays that are not there yet, mostly with
+        free memory (before collection) down to what the typed strings need plus a little."""
+        rng = self.rng
+        line = rng.random() < 0.2
+        items = []
+        total = 0
+        seen = set()
+        for _ in range(1 if line else rng.choice([1, 2, 2, 3, 3, 4])):
+            strs = line or rng.random() < 0.65
+            r = rng.random()
+            if r < 0.35:
+                pool = [n for n in (self.astr if strs else self.anum) + self.xarr if is_str(n) == strs]
+                fresh = [n for n in pool if n not in m.ar]
+                if not pool:
+                    continue
+                name = rng.choice(fresh or pool)
+                ref = {'n': name, 'i': self.subs_for(m, name, False)}
+            elif r < 0.7:
+                sig = '$' if strs else rng.choice('%!#')
+                ref = {'n': gen_name(rng, sig, self.used, self.bases), 'i': None}
+            else:
+                ref = self.sref(m) if strs else self.nref(m)
+            if ref_txt(ref) in seen:
+                continue
+            seen.add(ref_txt(ref))
+            if strs:
+                v = self.typed_value(line)
+                total += len(v)
+            else:
+                v = rng.choice([0, 1, -1, 7, 255, 32767, -32768, rng.randint(-32768, 32767)])
+            items.append([ref, v])
+        if not items:
+            return []
+        out = []
+        if rng.random() < 0.7:
+            to = total + rng.choice([rng.randint(1, 8), rng.randint(1, 14), rng.randint(1, 45), rng.randint(1, 400)])
+            out.append({'op': 'squeeze', 't': rng.choice(self.sstr), 'to': to})
+        out.append({'op': 'input', 'line': line, 'v': items})
+        return out
+
+    def gen_restart(self, m):
+        """A restart, then functions whose first argument is a temporary and whose later argument allocates."""
+        rng = self.rng
+        out = [{'op': 'restart'}]
+
+        def cat():
+            x = {'k': 'var', 'r': self.sref(m)}
+            y = {'k': 'var', 'r': self.sref(m)} if rng.random() < 0.6 else {'k': 'lit', 'v': gen_lit(rng)[:20]}
+            return {'k': 'cat', 'a': x, 'b': y} if rng.random() < 0.5 else {'k': 'cat', 'a': y, 'b': x}
+        for _ in range(rng.choice([1, 2, 2, 3])):
+            r = rng.random()
+            if r < 0.5:
+                e = {'k': rng.choice(['left', 'right']), 's': cat(), 'n': {'k': 'len', 's': cat()}}
+            elif r < 0.75:
+                e = {'k': 'mid', 's': cat(), 'p': rng.choice([1, 1, 2, 5]), 'n': {'k': 'len', 's': cat()}}
+            else:
+                out.append({'op': 'let', 't': {'n': rng.choice(self.snum), 'i': None}, 'e': {'k': 'instr', 'a': cat(), 'b': cat()}})
+                continue
+            if rng.random() < 0.7:
+                out.append({'op': 'let', 't': self.sref(m), 'e': e})
+            else:
+                out.append({'op': 'probe', 'e': e})
+        return out
+
+    def gen_faillet(self, m):
+        """LET to an element of an array that is not there yet with a right-hand side that fails, then a
+        look at how the array got dimensioned."""
+        rng = self.rng
+        pool = self.astr + self.anum + self.xarr
+        fresh = [n for n in pool if n not in m.ar]
+        name = rng.choice(fresh) if fresh and rng.random() < 0.9 else rng.choice(pool)
+        if name in m.ar:
+            subs = self.subs_for(m, name, False)
+        else:
+            rank = rng.choice([1, 1, 2, 2, 3])
+            if is_str(name) and rank > 2 and 0 < self.gc_every < 5:
+                rank = 2
+            subs = [rng.randint(m.base, 10) for _ in range(rank)]
+        t = {'n': name, 'i': subs}
+        r = rng.random()
+        if r < 0.3:
+            # the array itself with another number of subscripts
+            other = subs[:-1] if (len(subs) > 1 and rng.random() < 0.5) else subs + [rng.randint(m.base, 10)]
+            e = {'k': 'var', 'r': {'n': name, 'i': other}}
+        elif r < 0.5:
+            e = {'k': 'var', 'r': (self.sref if is_str(name) else self.nref)(m, elem_p=1.0, oob_p=1.0)}
+        elif is_str(name):
+            e = rng.choice([{'k': 'chr', 'c': 256}, {'k': 'left', 's': {'k': 'lit', 'v': 'ab'}, 'n': -1},
+                            {'k': 'cat', 'a': {'k': 'space', 'n': 200}, 'b': {'k': 'space', 'n': 56}}])
+        elif name[-1] == '%' and rng.random() < 0.5:
+            e = {'k': 'int', 'v': rng.choice([32768, 40000, -32769])}
+        else:
+            e = {'k': 'asc', 's': {'k': 'lit', 'v': ''}}
+        out = [{'op': 'let', 't': t, 'e': e}]
+        r = rng.random()
+        if r < 0.4:
+            out.append({'op': 'dim', 'n': name, 'd': self.small_dims(name)})
+        elif r < 0.7:
+            other = subs[:-1] if len(subs) > 1 else subs + [rng.randint(m.base, 10)]
+            ref = {'n': name, 'i': other}
+            if is_str(name):
+                out.append({'op': 'let', 't': ref, 'e': {'k': 'lit', 'v': gen_lit(rng)[:8]}})
+            else:
+                out.append({'op': 'let', 't': ref, 'e': {'k': 'int', 'v': rng.randint(-99, 99)}})
         return out
 
     def gen_merase(self, m):
@@ -2529,6 +2870,8 @@ class Gen(object):
             return self.gen_mdim(m)
         if kind == 'line':
             return self.gen_line(m, floor)
+        if kind == 'restart':
+            return {'op': 'restart'}
         raise K.HarnessError(kind)
 
 
